@@ -25,7 +25,14 @@ func (nopWAL) Wait()        {}
 // product allows (AutoFile goroutines are leaked by design).
 func closeWAL(n *kit.Node) {
 	defer func() { recover() }()
-	if w, ok := n.CS.VerifWAL().(*consensus.BaseWAL); ok {
+	var w *consensus.BaseWAL
+	switch x := n.CS.VerifWAL().(type) {
+	case *consensus.BaseWAL:
+		w = x
+	case *recWAL:
+		w = x.inner
+	}
+	if w != nil {
 		_ = w.Stop()
 		if g := w.Group(); g != nil {
 			if g.Head != nil {
